@@ -19,6 +19,9 @@ type c04Case struct {
 	Codec string  `json:"codec"`
 	Bytes model.B `json:"bytes"`
 	Spare int     `json:"spare"` // extra capacity behind the input, filled with a sentinel
+	// Prev, if set, is what the reused decode target was filled from beforehand (the valid encoding the
+	// input was derived from): a receiver recycled between packets
+	Prev model.B `json:"prev,omitempty"`
 }
 
 const sentinel = 0xEE
@@ -46,9 +49,12 @@ func allocDuring(f func()) uint64 {
 	return b.TotalAlloc - a.TotalAlloc
 }
 
-func checkC04(t failer, c *codec, in []byte, spare int, label string) {
+func checkC04(t failer, c *codec, in []byte, spare int, label string, prev ...[]byte) {
 	ev.Eval()
 	cc := c04Case{Codec: c.name, Bytes: in, Spare: spare}
+	if len(prev) > 0 {
+		cc.Prev = prev[0]
+	}
 	input := withSpare(in, spare)
 	v := c.newLib()
 	var err error
@@ -68,6 +74,7 @@ func checkC04(t failer, c *codec, in []byte, spare int, label string) {
 		if label != "raw" || spare > 0 {
 			ev.NonTrivial(c.name+":refused:"+label, cc)
 		}
+		c04Reused(t, c, in, cc, true)
 		return
 	}
 	if verr := c.validate(v); verr != nil {
@@ -100,9 +107,48 @@ func checkC04(t failer, c *codec, in []byte, spare int, label string) {
 			}
 		}
 	}
+	c04Reused(t, c, in, cc, false)
 	ev.Class(c.name + ":decoded:" + label)
 	if label != "raw" || spare > 0 {
 		ev.NonTrivial(c.name+":decoded:"+label, cc)
+	}
+}
+
+// c04Reused decodes the same input into values that already hold something else (a fully populated
+// value, and the value decoded from cc.Prev): whether the decode succeeds, and every field of the
+// result, must come from this input alone.
+func c04Reused(t failer, c *codec, in []byte, cc c04Case, freshRefused bool) {
+	targets := []tq.EncoderDecoder{c.toLib(dirtyModels[c.name])}
+	if len(cc.Prev) > 0 {
+		pv := c.newLib()
+		if p := catch(func() {
+			if tq.Unmarshal(append([]byte{}, cc.Prev...), pv) == nil {
+				targets = append(targets, pv)
+				ev.Class(c.name + ":recycled-receiver")
+			}
+		}); p != nil {
+			return // reported by the case that has Prev as its input
+		}
+	}
+	for _, dirty := range targets {
+		var err error
+		if p := catch(func() { err = tq.Unmarshal(append([]byte{}, in...), dirty) }); p != nil {
+			violation(t, "C04", c.name, "C04:"+c.name+":decode-panics", cc, "%s: decoding %d bytes into a reused value panics: %v", c.name, len(in), p)
+		}
+		if (err != nil) != freshRefused {
+			violation(t, "C04", c.name, "C04:"+c.name+":outcome-depends-on-receiver", cc, "%s: the same %d bytes are refused=%v by a fresh value and refused=%v by a reused one", c.name, len(in), freshRefused, err != nil)
+		}
+		if err != nil {
+			continue
+		}
+		for i, f := range libFields(c, dirty) {
+			if len(f) > 0 && !bytes.Contains(in, f) {
+				violation(t, "C04", c.name, "C04:"+c.name+":field-not-from-input", cc, "%s: decoded into a reused value, field %d (%q) does not come from the input", c.name, i, clip(f))
+			}
+		}
+		if verr := c.validate(dirty); verr != nil {
+			violation(t, "C04", c.name, "C04:"+c.name+":decoded-value-invalid", cc, "%s: decoded into a reused value without error but the value fails Validate: %v", c.name, verr)
+		}
 	}
 }
 
@@ -129,31 +175,33 @@ func checkC04Alloc(t failer, c *codec, in []byte) {
 	ev.Class(c.name + ":alloc-bounded")
 }
 
-func genC04Input(t *rapid.T, c *codec) ([]byte, string) {
+func genC04Input(t *rapid.T, c *codec) ([]byte, string, []byte) {
 	switch rapid.IntRange(0, 6).Draw(t, "input_kind") {
 	case 0:
-		return rapid.SliceOfN(rapid.Byte(), 0, 80).Draw(t, "raw"), "raw"
+		return rapid.SliceOfN(rapid.Byte(), 0, 80).Draw(t, "raw"), "raw", nil
 	case 1:
 		// raw bytes behind a plausible fixed part
 		n := rapid.SampledFrom([]int{0, 1, 4, 5, 6, 8, 9, 11, 12, 13, 30, 300, 65548, 65549, 70000}).Draw(t, "rawlen")
-		return genBytes(t, "rawfill", n, alphaAny), "raw"
+		return genBytes(t, "rawfill", n, alphaAny), "raw", nil
 	case 2, 3:
 		enc := c.encode(c.gen(t))
+		full := append([]byte{}, enc...)
 		if len(enc) > 0 {
 			enc = enc[:rapid.IntRange(0, len(enc)-1).Draw(t, "cut")]
 		}
-		return enc, "truncated"
+		return enc, "truncated", full
 	case 4, 5:
 		enc := c.encode(c.gen(t))
+		full := append([]byte{}, enc...)
 		if len(enc) > 0 {
 			hi := min(len(enc)-1, 24)
 			pos := rapid.IntRange(0, hi).Draw(t, "pos")
 			old := enc[pos]
 			enc[pos] = rapid.SampledFrom([]byte{0, 1, old - 1, old + 1, 255, old ^ 0x80}).Draw(t, "val")
 		}
-		return enc, "corrupted"
+		return enc, "corrupted", full
 	default:
-		return c.encode(c.gen(t)), "valid"
+		return c.encode(c.gen(t)), "valid", c.encode(c.gen(t))
 	}
 }
 
@@ -164,9 +212,9 @@ func TestC04(t *testing.T) {
 		t.Run(c.name, func(t *testing.T) {
 			n := 0
 			rapid.Check(t, func(rt *rapid.T) {
-				in, label := genC04Input(rt, c)
+				in, label, prev := genC04Input(rt, c)
 				spare := rapid.SampledFrom([]int{0, 0, 1, 16, 300, 70000}).Draw(rt, "spare")
-				checkC04(rt, c, in, spare, label)
+				checkC04(rt, c, in, spare, label, prev)
 				if n++; n%8 == 0 {
 					checkC04Alloc(rt, c, in)
 				}
@@ -201,13 +249,13 @@ func TestC04Enum(t *testing.T) {
 			enc := c.encode(m)
 			for _, spare := range []int{0, 64} {
 				for cut := 0; cut <= len(enc); cut++ {
-					checkC04(t, c, enc[:cut], spare, "truncated")
+					checkC04(t, c, enc[:cut], spare, "truncated", enc)
 				}
 				for pos := 0; pos < len(enc) && pos < 20; pos++ {
 					for _, val := range []byte{0, 1, enc[pos] - 1, enc[pos] + 1, 127, 128, 255} {
 						mut := append([]byte{}, enc...)
 						mut[pos] = val
-						checkC04(t, c, mut, spare, "corrupted")
+						checkC04(t, c, mut, spare, "corrupted", enc)
 					}
 				}
 			}
@@ -242,7 +290,7 @@ func TestC04Regress(t *testing.T) {
 		if c == nil {
 			t.Fatalf("%s: unknown codec %q", s.Note, cc.Codec)
 		}
-		checkC04(t, c, cc.Bytes, cc.Spare, "saved")
+		checkC04(t, c, cc.Bytes, cc.Spare, "saved", cc.Prev)
 		checkC04Alloc(t, c, cc.Bytes)
 	}
 }
